@@ -15,7 +15,12 @@ FillOK(e) == /\ Len(e.scr) >= 2
              /\ \A r \in 2..Len(e.scr) : Norm(e.scr[r].digests) = Norm(e.scr[1].digests)
 \* a behaviour that declares no scratch at all and takes none proves nothing: counted, not rejected
 Takes(e) == \E r \in 1..Len(e.scr) : \E c \in 1..Len(e.scr[r].calls) : Len(e.scr[r].calls[c].takes) > 0
+\* "the maximum over a set of operations serves all of them": where the log carries the value of the crate's all-operations
+\* query (for the largest layout of the behaviour), no covered call declares more than it
+MaxOK(e) == \A r \in 1..Len(e.scr) : \A c \in 1..Len(e.scr[r].calls) :
+              LET cl == e.scr[r].calls[c] IN ("all" \in DOMAIN cl /\ cl.all >= 0) => cl.decl <= cl.all
 Verdict(e, k) == (IF ScrOK(e) THEN <<>> ELSE << <<k, "scr">> >>) \o (IF FillOK(e) THEN <<>> ELSE << <<k, "fill">> >>)
+                 \o (IF MaxOK(e) THEN <<>> ELSE << <<k, "max">> >>)
 Init == i = 1 /\ bad = <<>>
 Next == /\ i <= Len(Rec) /\ i' = i + 1 /\ bad' = bad \o Verdict(Rec[i], i)
 Spec == Init /\ [][Next]_vars
